@@ -22,7 +22,11 @@ def written_pointers(P, f, inst):
             if n.startswith('llvm.'):
                 return []
             # unknown external: every pointer argument may be written
-            return [a for a in inst.ops if a['k'] in ('i', 'a', 'g', 'ce')]
+            def isptr(a):
+                if a['k'] == 'a': return f.params[a['n']]['ty'].endswith('*')
+                if a['k'] == 'i': return (f.insts[a['id']].d.get('ty') or '').endswith('*')
+                return a['k'] in ('g', 'ce')
+            return [a for a in inst.ops if isptr(a)]
         if t[0] == 'dep':
             return [inst.ops[k] for k in DEP_WRITES.get(t[1], range(len(inst.ops))) if k < len(inst.ops)]
         if t[0] == 'indirect':
